@@ -337,3 +337,36 @@ def render_image_checks(tree):
     o.append(",\n".join("  %s := %s" % (k, str(v).lower()) for k, v in c.items()))
     o.append("}\n\nend JanetModel.Gen.ImageChecks\n")
     return "\n".join(o)
+
+
+# ------------------------------------------------------------------------------------------------ abstract types
+def abstract_types_with_unmarshal(tree):
+    """[(type name, unmarshal function, needs_unsafe_flag)] for every `const JanetAbstractType x = { "name", gc, gcmark, get, put,
+    marshal, unmarshal, ...}` initialiser in src/core with a non-NULL unmarshal hook.  The base corpus of checks/C10.py must
+    contain an image of each of them."""
+    out = []
+    core = os.path.join(tree, "src/core")
+    for f in sorted(os.listdir(core)):
+        if not f.endswith(".c"):
+            continue
+        src = csrc.strip_comments(csrc.read(tree, "src/core/" + f))
+        for m in re.finditer(r"const\s+JanetAbstractType\s+(\w+)\s*=\s*\{", src):
+            i = src.index("{", m.start())
+            body = src[i + 1:csrc.match_brace(src, i) - 1]
+            fields = [x.strip() for x in body.split(",")]
+            if len(fields) < 7 or not fields[0].startswith('"'):
+                if re.search(r"\.unmarshal\s*=", body):
+                    raise ExtractError("%s: designated initialiser of %s not supported by the extractor" % (f, m.group(1)))
+                continue
+            if fields[6] in ("NULL", "0", ""):
+                continue
+            name = fields[0].strip('"')
+            try:
+                fb = csrc.func_body(src, fields[6])
+            except ExtractError:
+                fb = ""
+            unsafe = bool(re.search(r"JANET_MARSHAL_UNSAFE", fb))
+            out.append((name, fields[6], unsafe))
+    if not out:
+        raise ExtractError("no abstract type with an unmarshal hook found")
+    return out
